@@ -1657,3 +1657,112 @@ theorem add_zero_angle_finite (b : Nat) (hb : b < M360) : (add (.fin false b) ze
     simp [this, Val.isFinite]
 
 end B64
+
+/-! Part 8: copies are equal to their source. -/
+namespace B64
+
+theorem mod360_idem (b : Nat) (hb : b < M360) : mod360 (.fin false b) = .fin false b := by
+  unfold mod360 pyMod
+  simp only [c360_eq, fmod]
+  have hne : (M360 == 0) = false := by simp; omega
+  simp only [hne, Bool.false_eq_true, if_false, Nat.mod_eq_of_lt hb]
+  cases b with
+  | zero => simp [Val.isZero, Val.signBit]
+  | succ n => simp [Val.isZero, Val.ltZero]
+
+theorem norm360_idem (b : Nat) (hb : b < M360) : norm360 (.fin false b) = .fin false b := by
+  show pyMod (pyMod _ c360) c360 = _
+  have h := mod360_idem b hb
+  unfold mod360 at h
+  rw [h, h]
+
+end B64
+
+namespace C05
+open B64
+
+theorem norm2Q_idem (RS : RoundingSystem) (x : Rat) (h0 : 0 ≤ x) (h : x < 360) : norm2Q RS x = x := by
+  have e : pyModQ RS x 360 = x := by
+    unfold pyModQ
+    simp only [fmodQ_of_lt x 360 h0 h]
+    split
+    · rename_i hz; exact hz.symm
+    · have : ¬ x < 0 := by linarith
+      simp [this]
+  unfold norm2Q
+  rw [e, e]
+
+/-- sites through which copies are made: the class must keep an in-range value (`norm2` or `copyField`, not `zero`) -/
+def copySitesOK (sites : List AngleSite) : Bool :=
+  [("Angle.__init__", 0), ("Angle.__init__", 1), ("FrozenAngle.__new__", 0), ("FrozenAngle.__new__", 1),
+   ("Angle.freeze", 0), ("FrozenAngle.thaw", 0)].all fun (f, n) =>
+    [0, 1, 2].all fun s =>
+      match siteCls sites f s n with
+      | .norm2 | .copyField => true
+      | _ => false
+
+variable {α : Type} {N : NumSys α} (L : NumLaws N)
+
+theorem apply_keep {sites : List AngleSite} (hs : copySitesOK sites = true) (hid : ∀ x, L.R x → N.norm2 x = x)
+    (f : String) (n : Nat)
+    (hm : (f, n) ∈ [("Angle.__init__", 0), ("Angle.__init__", 1), ("FrozenAngle.__new__", 0), ("FrozenAngle.__new__", 1),
+      ("Angle.freeze", 0), ("FrozenAngle.thaw", 0)]) (s : Nat) (hsl : s ∈ [0, 1, 2]) (x : α) (hx : L.R x) :
+    applyCls N (siteCls sites f s n) x = x := by
+  unfold copySitesOK at hs
+  rw [List.all_eq_true] at hs
+  have h1 := hs _ hm
+  simp only [List.all_eq_true] at h1
+  have h2 := h1 s hsl
+  cases hc : siteCls sites f s n <;> rw [hc] at h2 <;> simp at h2 <;> simp only [applyCls]
+  exact hid x hx
+
+/-- **copies are equal to their source**: `freeze`, `thaw`, `Angle(angle)`, `FrozenAngle(angle)` and `Angle.copy()`
+(`Angle(p, y, r)` of the own fields) append an object with exactly the source's fields (and, by
+`C05_frame_machine`, later calls on one of them never change the other). -/
+theorem copy_eq {sites : List AngleSite} (hs : copySitesOK sites = true) (hid : ∀ x, L.R x → N.norm2 x = x)
+    {st : State α} (h : Inv L st) {i : Nat} {o : Obj α} (hi : st[i]? = some o) (hk : o.kind.isAngle = true) :
+    (o.kind = .ang → (step N sites st (.freeze i)).1 = st ++ [⟨.fang, o.a, o.b, o.c⟩]) ∧
+    (o.kind = .fang → (step N sites st (.thaw i)).1 = st ++ [⟨.ang, o.a, o.b, o.c⟩]) ∧
+    (∀ fr, (step N sites st (.ctorCopy fr i)).1 = st ++ [⟨Kind.angle fr, o.a, o.b, o.c⟩]) ∧
+    (∀ fr, (step N sites st (.ctor fr false o.a o.b o.c)).1 = st ++ [⟨Kind.angle fr, o.a, o.b, o.c⟩]) := by
+  obtain ⟨ra, rb, rc⟩ := inv_get L h hi hk
+  have k := fun f n hm s hsl x hx => apply_keep L hs hid f n hm s hsl x hx
+  refine ⟨?_, ?_, ?_, ?_⟩
+  · intro hkind
+    simp only [step, hi, hkind, beq_self_eq_true, if_true]
+    rw [k "Angle.freeze" 0 (by decide) 0 (by decide) _ ra, k "Angle.freeze" 0 (by decide) 1 (by decide) _ rb,
+      k "Angle.freeze" 0 (by decide) 2 (by decide) _ rc]
+  · intro hkind
+    simp only [step, hi, hkind]
+    have : (Kind.fang == Kind.fang) = true := by decide
+    simp only [this, if_true]
+    rw [k "FrozenAngle.thaw" 0 (by decide) 0 (by decide) _ ra, k "FrozenAngle.thaw" 0 (by decide) 1 (by decide) _ rb,
+      k "FrozenAngle.thaw" 0 (by decide) 2 (by decide) _ rc]
+  · intro fr
+    simp only [step, hi, hk, if_true]
+    cases fr
+    · simp only [Bool.false_eq_true, if_false]
+      rw [k "Angle.__init__" 1 (by decide) 0 (by decide) _ ra, k "Angle.__init__" 1 (by decide) 1 (by decide) _ rb,
+        k "Angle.__init__" 1 (by decide) 2 (by decide) _ rc]
+    · simp only [if_true]
+      rw [k "FrozenAngle.__new__" 1 (by decide) 0 (by decide) _ ra, k "FrozenAngle.__new__" 1 (by decide) 1 (by decide) _ rb,
+        k "FrozenAngle.__new__" 1 (by decide) 2 (by decide) _ rc]
+  · intro fr
+    simp only [step]
+    cases fr
+    · simp only [Bool.false_eq_true, if_false]
+      rw [k "Angle.__init__" 0 (by decide) 0 (by decide) _ ra, k "Angle.__init__" 0 (by decide) 1 (by decide) _ rb,
+        k "Angle.__init__" 0 (by decide) 2 (by decide) _ rc]
+    · simp only [if_true, Bool.false_eq_true, if_false]
+      rw [k "FrozenAngle.__new__" 0 (by decide) 0 (by decide) _ ra, k "FrozenAngle.__new__" 0 (by decide) 1 (by decide) _ rb,
+        k "FrozenAngle.__new__" 0 (by decide) 2 (by decide) _ rc]
+
+theorem b64_idem : ∀ x, b64Laws.R x → b64.norm2 x = x := by
+  rintro x ⟨b, rfl, hb⟩
+  exact norm360_idem b hb
+
+theorem abs_idem (RS : RoundingSystem) : ∀ x, (absLaws RS).R x → (absSys RS).norm2 x = x := by
+  rintro x ⟨h0, h⟩
+  exact norm2Q_idem RS x h0 h
+
+end C05
